@@ -12,7 +12,7 @@ sys.path.insert(0, str(ROOT))
 def build_table():
     m = json.loads((ROOT / "MANIFEST.json").read_text())
     k = json.loads((ROOT / "known_findings.json").read_text())["findings"]
-    rows = []
+    rows = ["| id | theorems | partial / judged only | fixes | known |", "|---|---|---|---|---|"]
     for c in sorted(m["checks"], key=lambda c: c["property_id"]):
         pid = c["property_id"]
         P = importlib.import_module(f"hv.props.{pid.lower()}").PROPERTY
